@@ -338,7 +338,32 @@ func (w *h5World) inbound(kind string, peer *net.UDPAddr, payload []byte, viaSoc
 		return
 	}
 	w.vt.OpSync("%s", op)
-	handled, err := w.c.HandleInbound(data, from)
+	var handled bool
+	var err error
+	doneIn := make(chan struct{})
+	go func() { handled, err = w.c.HandleInbound(data, from); close(doneIn) }()
+	synctest.Wait()
+	select {
+	case <-doneIn:
+	default:
+		// the read loop's handler is blocked on this message: report it and release it by draining the queue
+		w.vt.Obs("blocked")
+		w.vt.Alarm("inbound-blocks", "HandleInbound blocked on %s", op)
+		w.vt.Flush()
+		buf := make([]byte, 70000)
+		for i := 0; i < 2000; i++ {
+			select {
+			case <-doneIn:
+				return
+			default:
+			}
+			_ = w.conn.SetReadDeadline(time.Now().Add(time.Second))
+			_, _, _ = w.conn.ReadFrom(buf) // make room: the queue is full
+			synctest.Wait()
+		}
+		_ = w.conn.SetReadDeadline(time.Time{})
+		return
+	}
 	res := ""
 	switch {
 	case err == nil && handled:
